@@ -171,7 +171,7 @@ func SpecErrorValued(reply interface{}) bool { return false }
 //@ func Batch.doBatch
 //@   arith int
 //@   properties C19
-//@   replay cluster_doBatch
+//@   replay cluster_doBatch cluster_redirectOrder
 //@   opaque SpecRedirectClass
 //@   ghost var bSent mathint = 0
 //@   ghost var bRecv mathint = 0
